@@ -684,5 +684,325 @@ Section LSafe.
         eapply lsafe_bind; [apply lsafe_force_scoped; eapply svgood_mono; [| |exact Hc]; lia|]. intros mp n8 m8 Hn8 Hm8 Hmp. cbv beta in Hmp.
         apply lsafe_cell_set. exact Hmp.
     Qed.
+
+    (* ---- execution phase ---- *)
+    Definition lcaps_safe (m : qmatch) (okq : quant -> N -> N -> bool) : Prop :=
+      forall q fi si, okq q fi si = true ->
+        match from_nodes (nodes_for_capture m fi) q with
+        | Ok v => forall n, vgood sok n v
+        | Panic _ => False
+        | _ => True
+        end.
+    Lemma lcaps_safe_none m : lcaps_safe m no_capture.
+    Proof. intros q fi si H. discriminate. Qed.
+
+    Notation leval' := (leval t fl glob call).
+    Definition LGS : list lvalue -> nat -> nat -> Prop := fun out n m => Forall (lvgood sok n m) out.
+
+    Lemma lsafe_leval : forall fuel le e okq n0 m0 sh, lcaps_safe (ll_match le) okq -> expr_ok okq e = true ->
+      lsafe n0 m0 sh sh LG3 (leval' fuel le e).
+    Proof.
+      induction fuel as [|fuel IH]; intros le e okq n0 m0 sh Hc He; [apply lsafe_oof|].
+      assert (Heager : forall e' n1 m1 sh1, expr_ok okq e' = true ->
+                 lsafe n1 m1 sh1 sh1 VG3 (lv <- leval' fuel le e' ;; eval_lv' (S fuel + default_eval_fuel) lv)).
+      { intros e' n1 m1 sh1 He'. eapply lsafe_bind; [eapply IH; eauto|]. intros lv n2 m2 _ _ Hlv. apply lsafe_eval_lv. exact Hlv. }
+      assert (Hmapm : forall es n1 m1, forallb (expr_ok okq) es = true -> lsafe n1 m1 sh sh LGS (mapM (leval' fuel le) es)).
+      { intros es n1 m1 Hes. apply lsafe_mapM_in with (Q := LG3); [exact LG3_mono|]. intros x Hx n2 m2 _ _.
+        eapply IH; [exact Hc|eapply forallb_In; eauto]. }
+      assert (Hcomp : forall elem var vale, expr_ok okq elem && expr_ok okq vale = true ->
+        lsafe n0 m0 sh sh LGS
+          (lv <- (lv <- leval' fuel le vale ;; eval_lv' (S fuel + default_eval_fuel) lv) ;; vals <- lift (as_list lv) ;;
+           lpush_frame ;;;
+           out <- mapM (fun v => lclear_frame ;;; lunscoped_add glob le var (LValue v) false ;;; leval' fuel le elem) vals ;;
+           lpop_frame ;;; ret out)).
+      { intros elem var vale Hb. apply andb_true_iff in Hb as [He1 He2].
+        eapply lsafe_bind; [apply Heager; exact He2|]. intros lv n1 m1 Hn1 Hm1 Hlv.
+        eapply lsafe_bind; [apply lsafe_lift with (Q := fun vals n _ => Forall (vgood sok n) vals)|].
+        { destruct lv; cbn [as_list]; try exact I. intros n m Hn Hm. apply vgood_list in Hlv. eapply vsgood_mono; eauto. }
+        intros vals n2 m2 Hn2 Hm2 Hvals. cbv beta in Hvals. destruct sh as [d k].
+        eapply lsafe_bind; [apply lsafe_push_frame|]. intros _ n3 m3 Hn3 Hm3 _.
+        eapply lsafe_bind; [apply lsafe_mapM_in with (Q := LG3); [exact LG3_mono|]|].
+        - intros x Hx n4 m4 Hn4 Hm4. eapply lsafe_bind; [apply lsafe_clear_frame|]. intros _ n5 m5 Hn5 Hm5 _.
+          eapply lsafe_bind; [apply lsafe_unscoped_add|].
+          + cbn [lvgood]. rewrite Forall_forall in Hvals. eapply vgood_mono; [|apply Hvals, Hx]. lia.
+          + intros _ n6 m6 Hn6 Hm6 _. eapply IH; eauto.
+        - intros out n4 m4 Hn4 Hm4 Hout. eapply lsafe_bind; [apply lsafe_pop_frame|]. intros _ n5 m5 Hn5 Hm5 _.
+          apply lsafe_ret. intros n6 m6 Hn6 Hm6. unfold LGS. eapply lvsgood_mono; [| |exact Hout]; lia. }
+      destruct e as [ | | |n|s|es|es|elem var vloc vale l|elem var vloc vale l|name q fi si l|name l|scope name l|f args|i];
+        cbn [leval]; cbn [expr_ok] in He.
+      - apply lsafe_ret; intros; exact I.
+      - apply lsafe_ret; intros; exact I.
+      - apply lsafe_ret; intros; exact I.
+      - apply lsafe_ret; intros; exact I.
+      - apply lsafe_ret; intros; exact I.
+      - eapply lsafe_bind; [apply Hmapm; exact He|]. intros vs n1 m1 Hn1 Hm1 Hvs. apply lsafe_ret. intros n2 m2 Hn2 Hm2.
+        unfold LG3. apply lvgood_list. eapply lvsgood_mono; [| |exact Hvs]; assumption.
+      - eapply lsafe_bind; [apply Hmapm; exact He|]. intros vs n1 m1 Hn1 Hm1 Hvs. apply lsafe_ret. intros n2 m2 Hn2 Hm2.
+        unfold LG3. apply lvgood_set. eapply lvsgood_mono; [| |exact Hvs]; assumption.
+      - eapply lsafe_bind; [apply (Hcomp elem var vale He)|]. intros out n1 m1 Hn1 Hm1 Hout. apply lsafe_ret. intros n2 m2 Hn2 Hm2.
+        unfold LG3. apply lvgood_list. eapply lvsgood_mono; [| |exact Hout]; assumption.
+      - eapply lsafe_bind; [apply (Hcomp elem var vale He)|]. intros out n1 m1 Hn1 Hm1 Hout. apply lsafe_ret. intros n2 m2 Hn2 Hm2.
+        unfold LG3. apply lvgood_set. eapply lvsgood_mono; [| |exact Hout]; assumption.
+      - eapply lsafe_bind; [apply lsafe_lift with (Q := VG3)|].
+        + specialize (Hc q fi si He). destruct (from_nodes (nodes_for_capture (ll_match le) fi) q); auto. intros n m _ _. apply Hc.
+        + intros v n1 m1 Hn1 Hm1 Hv. apply lsafe_ret. intros n2 m2 Hn2 Hm2. unfold LG3. cbn [lvgood]. eapply vgood_mono; [|exact Hv]. exact Hn2.
+      - apply lsafe_unscoped_get.
+      - eapply lsafe_bind; [eapply IH; eauto|]. intros sv n1 m1 Hn1 Hm1 Hsv. apply lsafe_ret. intros n2 m2 Hn2 Hm2.
+        unfold LG3. cbn [lvgood]. eapply lvgood_mono; [| |exact Hsv]; assumption.
+      - eapply lsafe_bind; [apply Hmapm; exact He|]. intros vs n1 m1 Hn1 Hm1 Hvs. apply lsafe_ret. intros n2 m2 Hn2 Hm2.
+        unfold LG3. apply lvgood_call. eapply lvsgood_mono; [| |exact Hvs]; assumption.
+      - destruct (nth_error (ll_caps le) (N.to_nat i)); [apply lsafe_ret; intros; exact I|apply lsafe_fail].
+    Qed.
+    Lemma lsafe_leager fuel le e okq n0 m0 sh : lcaps_safe (ll_match le) okq -> expr_ok okq e = true ->
+      lsafe n0 m0 sh sh VG3 (leager t fl glob call fuel le e).
+    Proof.
+      intros Hc He. unfold leager. eapply lsafe_bind; [eapply lsafe_leval; eauto|]. intros lv n1 m1 _ _ Hlv. apply lsafe_eval_lv. exact Hlv.
+    Qed.
+
+    Lemma lsafe_lvar_add fuel le v x b okq n0 m0 sh : lcaps_safe (ll_match le) okq -> var_ok okq v = true -> lvgood sok n0 m0 x ->
+      lsafe n0 m0 sh sh T3 (lvar_add t fl glob call fuel le v x b).
+    Proof.
+      intros Hc Hv Hx. destruct v as [name l|scope name l]; cbn [lvar_add]; cbn [var_ok] in Hv.
+      - apply lsafe_unscoped_add. exact Hx.
+      - destruct b; [apply lsafe_fail|]. eapply lsafe_bind; [eapply lsafe_leval; eauto|]. intros sv n1 m1 Hn1 Hm1 Hsv.
+        eapply lsafe_bind; [apply lsafe_store_add; eapply lvgood_mono; [| |exact Hx]; assumption|]. intros var n2 m2 Hn2 Hm2 Hvar.
+        apply lsafe_scoped_store_add; [eapply lvgood_mono; [| |exact Hsv]; assumption|exact Hvar].
+    Qed.
+    Lemma lsafe_lvar_set fuel le v x n0 m0 sh : lvgood sok n0 m0 x -> lsafe n0 m0 sh sh T3 (lvar_set glob fuel le v x).
+    Proof. intros Hx. destruct v as [name l|scope name l]; cbn [lvar_set]; [apply lsafe_unscoped_set; exact Hx|apply lsafe_fail]. Qed.
+    Lemma lsafe_ltest_cond fuel le c okq n0 m0 sh : lcaps_safe (ll_match le) okq -> cond_ok okq c = true ->
+      lsafe n0 m0 sh sh T3 (ltest_cond t fl glob call fuel le c).
+    Proof.
+      intros Hc Hk. destruct c as [e l|e l|e l]; cbn [ltest_cond]; cbn [cond_ok] in Hk;
+        (eapply lsafe_bind; [eapply lsafe_leager; eauto|]); intros v n1 m1 Hn1 Hm1 _.
+      - apply lsafe_ret; intros; exact I.
+      - apply lsafe_ret; intros; exact I.
+      - apply lsafe_lift. destruct v; cbn [as_bool]; intros; exact I.
+    Qed.
+
+    Definition AG3 : list (ident * lvalue) -> nat -> nat -> Prop := fun out n m => attrsgood sok n m out.
+    Lemma AG3_mono b n m n' m' : (n <= n')%nat -> (m <= m')%nat -> AG3 b n m -> AG3 b n' m'.
+    Proof. unfold AG3. intros Hn Hm. apply attrsgood_mono; assumption. Qed.
+    Lemma attrsgood_concat n m outs : Forall (fun y => AG3 y n m) outs -> attrsgood sok n m (concat outs).
+    Proof.
+      induction outs as [|o outs IH]; intros H; cbn [concat]; [constructor|]. inversion H; subst.
+      apply Forall_app. split; [assumption|apply IH; assumption].
+    Qed.
+
+    Lemma lsafe_lexec_attr : forall fuel le a okq n0 m0 sh, lcaps_safe (ll_match le) okq -> attr_ok okq a = true ->
+      lsafe n0 m0 sh sh AG3 (lexec_attr t fl glob call fuel le a).
+    Proof.
+      induction fuel as [|fuel IH]; intros le a okq n0 m0 sh Hc Ha; [apply lsafe_oof|].
+      destruct a as [name vale]. cbn [lexec_attr]. cbn [attr_ok] in Ha.
+      eapply lsafe_bind; [apply lsafe_poll|]. intros _ n1 m1 Hn1 Hm1 _.
+      eapply lsafe_bind; [eapply lsafe_leval; eauto|]. intros v n2 m2 Hn2 Hm2 Hv.
+      destruct (find_shorthand name (f_shorthands fl)) as [shd|] eqn:Ef.
+      2:{ apply lsafe_ret. intros n3 m3 Hn3 Hm3. unfold AG3. constructor; [|constructor]. cbn [snd]. eapply lvgood_mono; [| |exact Hv]; assumption. }
+      apply lsafe_get_state. intros s0 (_ & Hl0 & _) Hn0 Hm0 Hs0. cbv zeta. unfold lshape in Hs0. subst sh.
+      eapply lsafe_bind; [apply lsafe_set_llocals with (l := [[]]); constructor; constructor|]. intros _ n3 m3 Hn3 Hm3 _.
+      eapply lsafe_bind; [apply lsafe_unscoped_add; eapply lvgood_mono; [| |exact Hv]; lia|]. intros _ n4 m4 Hn4 Hm4 _.
+      eapply lsafe_bind.
+      - apply lsafe_mapM_in with (Q := AG3); [exact AG3_mono|]. intros a Hin n5 m5 Hn5 Hm5.
+        apply IH with (okq := no_capture); [apply lcaps_safe_none|].
+        eapply forallb_In; [apply Hsh; eapply find_shorthand_in; exact Ef|exact Hin].
+      - intros outs n5 m5 Hn5 Hm5 Houts.
+        eapply lsafe_bind; [apply lsafe_set_llocals; eapply llgood_mono; [| |exact Hl0]; lia|]. intros _ n6 m6 Hn6 Hm6 _.
+        apply lsafe_ret. intros n7 m7 Hn7 Hm7. unfold AG3. apply attrsgood_concat. revert Houts. apply Forall_impl.
+        intros o. apply AG3_mono; lia.
+    Qed.
+    Lemma lsafe_lexec_attrs fuel le attrs okq n0 m0 sh : lcaps_safe (ll_match le) okq -> forallb (attr_ok okq) attrs = true ->
+      lsafe n0 m0 sh sh AG3 (outs <- mapM (lexec_attr t fl glob call fuel le) attrs ;; ret (concat outs)).
+    Proof.
+      intros Hc Ha. eapply lsafe_bind.
+      - apply lsafe_mapM_in with (Q := AG3); [exact AG3_mono|]. intros a Hin n1 m1 _ _. eapply lsafe_lexec_attr; [exact Hc|eapply forallb_In; eauto].
+      - intros outs n1 m1 Hn1 Hm1 Houts. apply lsafe_ret. intros n2 m2 Hn2 Hm2. unfold AG3. apply attrsgood_concat. revert Houts. apply Forall_impl.
+        intros o. apply AG3_mono; assumption.
+    Qed.
+
+    Lemma lsafe_lscan_loop (run_arm : list str -> list stmt -> M lstate unit) arms rs subject :
+      length rs = length arms ->
+      (forall caps r body l, In (r, body, l) arms -> forall n1 m1 sh, lsafe n1 m1 sh sh T3 (run_arm caps body)) ->
+      forall sfuel i n0 m0 sh, lsafe n0 m0 sh sh T3 (lscan_loop find run_arm arms rs subject sfuel i).
+    Proof.
+      intros Hlen Hrun. induction sfuel as [|sfuel IHs]; intros i n0 m0 sh; cbn [lscan_loop]; [apply lsafe_oof|].
+      destruct (N.ltb i (N.of_nat (length subject))); [|apply lsafe_ret; intros; exact I]. cbv zeta.
+      eapply lsafe_bind; [apply lsafe_poll_n|]. intros _ n1 m1 Hn1 Hm1 _.
+      destruct (arm_select find rs (skipn (N.to_nat i) subject)) as [|k|k caps] eqn:Es; [apply lsafe_ret; intros; exact I|apply lsafe_fail|].
+      destruct (nth_error arms (N.to_nat k)) as [[[r body] l']|] eqn:En.
+      2:{ exfalso. apply nth_error_None in En. unfold arm_select in Es. apply arm_collect_range in Es; [|intros; discriminate]. lia. }
+      destruct sh as [d kk].
+      eapply lsafe_bind; [apply lsafe_push_frame|]. intros _ n2 m2 Hn2 Hm2 _.
+      eapply lsafe_bind; [eapply Hrun, nth_error_In, En|]. intros _ n3 m3 Hn3 Hm3 _.
+      eapply lsafe_bind; [apply lsafe_pop_frame|]. intros _ n4 m4 Hn4 Hm4 _. apply IHs.
+    Qed.
+    Lemma lsafe_lif_loop (test : cond -> M lstate bool) (run_body : list stmt -> M lstate unit) : forall arms,
+      (forall conds body l c, In (conds, body, l) arms -> In c conds -> forall n1 m1 sh, lsafe n1 m1 sh sh T3 (test c)) ->
+      (forall conds body l, In (conds, body, l) arms -> forall n1 m1 sh, lsafe n1 m1 sh sh T3 (run_body body)) ->
+      forall n0 m0 sh, lsafe n0 m0 sh sh T3 (lif_loop test run_body arms).
+    Proof.
+      induction arms as [|[[conds body] l'] arms IHa]; intros Ht Hr n0 m0 sh; cbn [lif_loop]; [apply lsafe_ret; intros; exact I|].
+      eapply lsafe_bind; [apply lsafe_mapM_in with (Q := T3); [intros; exact I|]|].
+      - intros c Hin n1 m1 _ _. eapply Ht; [left; reflexivity|exact Hin].
+      - intros bs n1 m1 _ _ _. destruct (forallb (fun b => b) bs).
+        + destruct sh as [d k]. eapply lsafe_bind; [apply lsafe_push_frame|]. intros _ n2 m2 _ _ _.
+          eapply lsafe_bind; [eapply Hr; left; reflexivity|]. intros _ n3 m3 _ _ _. apply lsafe_pop_frame.
+        + apply IHa.
+          * intros conds0 body0 l0 c Hin Hc. eapply Ht; [right; exact Hin|exact Hc].
+          * intros conds0 body0 l0 Hin. eapply Hr. right. exact Hin.
+    Qed.
+
+    Notation lexec_stmt' := (lexec_stmt t fl cfg glob regexes find call).
+    Definition OG3 : option lvalue -> nat -> nat -> Prop :=
+      fun o n m => match o with Some lv => lvgood sok n m lv | None => True end.
+
+    Lemma lsafe_lexec_stmt : forall fuel le s okq n0 m0 sh, lcaps_safe (ll_match le) okq ->
+      nodes_for_capture (ll_match le) (ll_full le) <> [] ->
+      stmt_ok okq s = true -> scans_ok regexes s = true -> lsafe n0 m0 sh sh T3 (lexec_stmt' fuel le s).
+    Proof.
+      induction fuel as [|fuel IH]; intros le s okq n0 m0 sh Hc Hfull Hs Hsc; [apply lsafe_oof|].
+      assert (Hblock : forall le' body n1 m1 sh1, ll_match le' = ll_match le -> ll_full le' = ll_full le ->
+                 forallb (stmt_ok okq) body = true -> forallb (scans_ok regexes) body = true ->
+                 lsafe n1 m1 sh1 sh1 T3 (iterM (fun st => lexec_stmt' fuel (ll_with_ctx le' (ctx_update (ll_ctx le') st)) st) body)).
+      { intros le' body n1 m1 sh1 Hm Hf Hb1 Hb2. apply lsafe_iterM_in. intros st Hin n2 m2 _ _. apply IH with (okq := okq).
+        - cbn [ll_with_ctx ll_match]. rewrite Hm. exact Hc.
+        - cbn [ll_with_ctx ll_match ll_full]. rewrite Hm, Hf. exact Hfull.
+        - eapply forallb_In; eauto.
+        - eapply forallb_In; eauto. }
+      assert (Harm : forall le' body n1 m1 sh1, ll_match le' = ll_match le -> ll_full le' = ll_full le ->
+                 forallb (stmt_ok okq) body = true -> forallb (scans_ok regexes) body = true ->
+                 lsafe n1 m1 sh1 sh1 T3 (iterM (fun st => let c := ctx_update (ll_ctx le') st in
+                                         ctx_wrap (CtxStmts [c]) (ctx_wrap CtxOther (lexec_stmt' fuel (ll_with_ctx le' c) st))) body)).
+      { intros le' body n1 m1 sh1 Hm Hf Hb1 Hb2. apply lsafe_iterM_in. intros st Hin n2 m2 _ _. cbv zeta. apply lsafe_ctx, lsafe_ctx.
+        apply IH with (okq := okq).
+        - cbn [ll_with_ctx ll_match]. rewrite Hm. exact Hc.
+        - cbn [ll_with_ctx ll_match ll_full]. rewrite Hm, Hf. exact Hfull.
+        - eapply forallb_In; eauto.
+        - eapply forallb_In; eauto. }
+      destruct s as [v e l|v e l|v e l|v vtext l|node attrs l|src snk l|src snk attrs l|vale arms l|values l|arms l|var vloc vale body l];
+        cbn [lexec_stmt]; cbn [stmt_ok] in Hs; cbn [scans_ok] in Hsc; (eapply lsafe_bind; [apply lsafe_poll|intros _ n1 m1 Hn1 Hm1 _]).
+      - apply andb_true_iff in Hs as [Hs1 Hs2]. eapply lsafe_bind; [eapply lsafe_leval; eauto|]. intros x n2 m2 Hn2 Hm2 Hx. eapply lsafe_lvar_add; eauto.
+      - apply andb_true_iff in Hs as [Hs1 Hs2]. eapply lsafe_bind; [eapply lsafe_leval; eauto|]. intros x n2 m2 Hn2 Hm2 Hx. eapply lsafe_lvar_add; eauto.
+      - apply andb_true_iff in Hs as [Hs1 Hs2]. eapply lsafe_bind; [eapply lsafe_leval; eauto|]. intros x n2 m2 Hn2 Hm2 Hx. apply lsafe_lvar_set. exact Hx.
+      - eapply lsafe_bind; [apply lsafe_add_node|]. intros n n2 m2 Hn2 Hm2 Hlt. cbv beta in Hlt.
+        eapply lsafe_bind; [apply lsafe_opt_node_attr; exact Hlt|]. intros _ n3 m3 Hn3 Hm3 _.
+        eapply lsafe_bind; [apply lsafe_opt_node_attr; lia|]. intros _ n4 m4 Hn4 Hm4 _.
+        eapply lsafe_bind.
+        { destruct (c_match_attr cfg) as [k|].
+          - eapply lsafe_bind; [apply lsafe_full_match_node; exact Hfull|]. intros mn n5 m5 Hn5 Hm5 _. apply lsafe_add_node_attr. lia.
+          - apply lsafe_ret; intros; exact I. }
+        intros _ n5 m5 Hn5 Hm5 _. eapply lsafe_lvar_add; eauto. cbn [lvgood vgood]. lia.
+      - apply andb_true_iff in Hs as [Hs1 Hs2]. eapply lsafe_bind; [eapply lsafe_leval; eauto|]. intros nv n2 m2 Hn2 Hm2 Hnv.
+        eapply lsafe_bind; [apply lsafe_mapM_in with (Q := AG3); [exact AG3_mono|]|].
+        + intros a Hin n3 m3 _ _. eapply lsafe_lexec_attr; [exact Hc|eapply forallb_In; eauto].
+        + intros outs n3 m3 Hn3 Hm3 Houts. apply lsafe_push_lstmt. cbn [lsgood]. split; [eapply lvgood_mono; [| |exact Hnv]; assumption|].
+          apply attrsgood_concat. exact Houts.
+      - apply andb_true_iff in Hs as [Hs1 Hs2].
+        eapply lsafe_bind; [eapply lsafe_leval; eauto|]. intros a n2 m2 Hn2 Hm2 Ha.
+        eapply lsafe_bind; [eapply lsafe_leval; eauto|]. intros b n3 m3 Hn3 Hm3 Hb. cbv zeta.
+        apply lsafe_push_lstmt. cbn [lsgood]. split; [eapply lvgood_mono; [| |exact Ha]; assumption|exact Hb].
+      - apply andb_true_iff in Hs as [Hs12 Hs3]. apply andb_true_iff in Hs12 as [Hs1 Hs2].
+        eapply lsafe_bind; [eapply lsafe_leval; eauto|]. intros a n2 m2 Hn2 Hm2 Ha.
+        eapply lsafe_bind; [eapply lsafe_leval; eauto|]. intros b n3 m3 Hn3 Hm3 Hb.
+        eapply lsafe_bind; [apply lsafe_mapM_in with (Q := AG3); [exact AG3_mono|]|].
+        + intros a' Hin n4 m4 _ _. eapply lsafe_lexec_attr; [exact Hc|eapply forallb_In; eauto].
+        + intros outs n4 m4 Hn4 Hm4 Houts. apply lsafe_push_lstmt. cbn [lsgood].
+          split; [eapply lvgood_mono; [| |exact Ha]; lia|]. split; [eapply lvgood_mono; [| |exact Hb]; assumption|].
+          apply attrsgood_concat. exact Houts.
+      - apply andb_true_iff in Hs as [Hs1 Hs2]. apply andb_true_iff in Hsc as [Hsc1 Hsc2].
+        eapply lsafe_bind; [eapply lsafe_leager; eauto|]. intros sv n2 m2 Hn2 Hm2 _.
+        eapply lsafe_bind; [apply lsafe_lift with (Q := T3); destruct sv; cbn [as_str]; intros; exact I|]. intros subject n3 m3 Hn3 Hm3 _.
+        destruct (arm_table regexes arms) as [rs|] eqn:Et; [|discriminate Hsc1].
+        apply lsafe_lscan_loop; [eapply arm_table_length; eauto|]. intros caps r body l' Hin n4 m4 sh4.
+        apply (Harm (ll_with_caps le caps) body); try reflexivity.
+        + apply (forallb_In _ _ _ Hs2 Hin).
+        + apply (forallb_In _ _ _ Hsc2 Hin).
+      - eapply lsafe_bind; [apply lsafe_mapM_in with (Q := OG3)|].
+        + intros o n m n' m' Hn Hm. destruct o as [lv|]; cbn [OG3]; [apply lvgood_mono; assumption|auto].
+        + intros e Hin n2 m2 _ _. pose proof (forallb_In _ _ _ Hs Hin) as He.
+          destruct e; try (apply lsafe_ret; intros; exact I);
+            (eapply lsafe_bind; [eapply lsafe_leval; eauto|intros lv n3 m3 Hn3 Hm3 Hlv; apply lsafe_ret; intros n4 m4 Hn4 Hm4; cbn [OG3];
+                                                            eapply lvgood_mono; [| |exact Hlv]; assumption]).
+        + intros args n2 m2 Hn2 Hm2 Hargs. apply lsafe_push_lstmt. cbn [lsgood]. exact Hargs.
+      - apply lsafe_lif_loop.
+        + intros conds body l' c Hin Hc' n2 m2 sh2. pose proof (forallb_In _ _ _ Hs Hin) as Ha. cbn [fst snd] in Ha.
+          apply andb_true_iff in Ha as [Ha1 Ha2]. eapply lsafe_ltest_cond; [exact Hc|eapply forallb_In; eauto].
+        + intros conds body l' Hin n2 m2 sh2. pose proof (forallb_In _ _ _ Hs Hin) as Ha. cbn [fst snd] in Ha.
+          apply andb_true_iff in Ha as [Ha1 Ha2]. apply (Hblock le body); auto.
+          apply (forallb_In _ _ _ Hsc Hin).
+      - apply andb_true_iff in Hs as [Hs1 Hs2].
+        eapply lsafe_bind; [eapply lsafe_leager; eauto|]. intros lv n2 m2 Hn2 Hm2 Hlv.
+        eapply lsafe_bind; [apply lsafe_lift with (Q := fun vals n _ => Forall (vgood sok n) vals)|].
+        { destruct lv; cbn [as_list]; try exact I. intros n m Hn Hm. apply vgood_list in Hlv. eapply vsgood_mono; eauto. }
+        intros vals n3 m3 Hn3 Hm3 Hvals. cbv beta in Hvals. destruct sh as [d k].
+        eapply lsafe_bind; [apply lsafe_push_frame|]. intros _ n4 m4 Hn4 Hm4 _.
+        eapply lsafe_bind; [|intros _ n5 m5 _ _ _; apply lsafe_pop_frame].
+        apply lsafe_iterM_in. intros x Hx n5 m5 Hn5 Hm5. eapply lsafe_bind; [apply lsafe_clear_frame|]. intros _ n6 m6 Hn6 Hm6 _.
+        eapply lsafe_bind; [apply lsafe_unscoped_add|].
+        + cbn [lvgood]. rewrite Forall_forall in Hvals. eapply vgood_mono; [|apply Hvals, Hx]. lia.
+        + intros _ n7 m7 _ _ _. apply (Hblock le body); auto.
+    Qed.
+
+    (* ---- matches: one (stanza index, match) pair as the merged query reports it ---- *)
+    Definition good_lmatch (pm : N * qmatch) : Prop :=
+      match nth_error (f_stanzas fl) (N.to_nat (fst pm)) with
+      | Some st => nodes_for_capture (snd pm) (st_full_file_idx st) <> [] /\
+                   forallb (stmt_ok (cap_ok_file (snd pm))) (st_stmts st) = true /\
+                   Forall (fun c : N * list N => Forall sok (snd c)) (snd pm)
+      | None => False
+      end.
+    Lemma lcaps_safe_cap_ok m : Forall (fun c : N * list N => Forall sok (snd c)) m -> lcaps_safe m (cap_ok_file m).
+    Proof. intros H q fi si Hq. apply cap_ok_from_nodes; assumption. Qed.
+
+    Lemma lsafe_lexec_stanza fuel st m n0 m0 sh :
+      nodes_for_capture m (st_full_file_idx st) <> [] -> forallb (stmt_ok (cap_ok_file m)) (st_stmts st) = true ->
+      Forall (fun c : N * list N => Forall sok (snd c)) m -> forallb (scans_ok regexes) (st_stmts st) = true ->
+      lsafe n0 m0 sh sh T3 (lexec_stanza t fl cfg glob regexes find call fuel st m).
+    Proof.
+      intros Hfull Hok Hm Hsc. unfold lexec_stanza. eapply lsafe_bind; [apply lsafe_poll|]. intros _ n1 m1 _ _ _.
+      eapply lsafe_bind; [apply lsafe_clear_frame|]. intros _ n2 m2 _ _ _. cbv zeta.
+      destruct (nodes_for_capture m (st_full_file_idx st)) as [|n ns] eqn:En; [exfalso; apply Hfull; reflexivity|].
+      apply lsafe_iterM_in. intros s Hin n3 m3 _ _. cbv zeta. apply lsafe_ctx. apply lsafe_lexec_stmt with (okq := cap_ok_file m).
+      - cbn [ll_with_ctx ll_match]. apply lcaps_safe_cap_ok, Hm.
+      - cbn [ll_with_ctx ll_match ll_full]. rewrite En. discriminate.
+      - eapply forallb_In; eauto.
+      - eapply forallb_In; eauto.
+    Qed.
+
+    Lemma lsafe_lexec_file fuel ms n0 m0 sh : Forall good_lmatch ms ->
+      forallb (fun st => forallb (scans_ok regexes) (st_stmts st)) (f_stanzas fl) = true ->
+      lsafe n0 m0 sh sh T3 (lexec_file t fl cfg glob regexes find call fuel ms).
+    Proof.
+      intros Hms Hsc. unfold lexec_file. eapply lsafe_bind; [|intros _ n1 m1 _ _ _; apply lsafe_evaluate_phase].
+      apply lsafe_iterM_in. intros pm Hin n1 m1 _ _. rewrite Forall_forall in Hms. specialize (Hms pm Hin). unfold good_lmatch in Hms.
+      destruct (nth_error (f_stanzas fl) (N.to_nat (fst pm))) as [st|] eqn:Est; [|contradiction].
+      destruct Hms as (Hfull & Hok & Hm). apply lsafe_lexec_stanza; auto.
+      apply nth_error_In in Est. apply (forallb_In _ _ _ Hsc Est).
+    Qed.
   End LInterp.
 End LSafe.
+
+(* ------------------------------------------------------------------ the run *)
+(* matches of the merged file query, each with the index of its stanza: the index is in range (P_stanza_index);
+   the full-match capture (by its index in the file query) is bound; every capture expression of the stanza has a
+   resolved quantifier and, when it is One, a node in the match (by file capture index); matched nodes satisfy sok *)
+Definition GoodMatchesLazy (sok : N -> Prop) (fl : file) (matches : list (N * qmatch)) : Prop :=
+  Forall (good_lmatch sok fl) matches.
+
+Theorem exec_no_panic_lazy {rx : Type} (sok : N -> Prop) t fl cfg supplied budget (regexes : list rx) find call fuel matches g0 :
+  WellFormedFile regexes fl -> GoodMatchesLazy sok fl matches -> GoodGlobals sok g0 supplied -> GoodCall sok call ->
+  forall x, run_lazy t fl cfg supplied budget regexes find call fuel matches g0 <> Panic x.
+Proof.
+  intros Hwf Hm Hg Hcall x. unfold run_lazy. unfold WellFormedFile, wf_file in Hwf. apply andb_true_iff in Hwf as [Hsc Hsh].
+  destruct (check_globals (f_globals fl) (globals_nested supplied)) as [glob|e|y|] eqn:Eg; try discriminate.
+  2:{ exfalso. exact (check_globals_no_panic _ _ _ Eg). }
+  assert (Hglob : ggood sok (length g0) glob).
+  { eapply check_globals_good; [|exact Eg]. constructor; [constructor|exact Hg]. }
+  assert (HI : LInv sok (length g0) (linit g0)).
+  { unfold LInv, stgood, linit, lglen, slen. cbn [l_graph l_locals l_store l_scoped l_edges l_attrs l_prints l_params].
+    split; [lia|]. split; [constructor; constructor|]. repeat split; constructor. }
+  pose proof (lsafe_lexec_file sok (length g0) t fl cfg glob regexes find call Hglob Hcall
+                (fun sh Hin => forallb_In _ _ _ Hsh Hin) fuel matches 0%nat 0%nat (1%nat, 0%nat) Hm Hsc
+                (linit g0) (polls0 budget) HI (Nat.le_0_l _) (Nat.le_0_l _) eq_refl) as H.
+  destruct (lexec_file t fl cfg glob regexes find call fuel matches (linit g0) (polls0 budget)) as [[[u s] p]|e|y|];
+    try discriminate. contradiction.
+Qed.
